@@ -163,6 +163,10 @@ def replay_window(p):
         to = frm + 1
     a, b, x = make_cols(total, 2, 7, '<', '<', 3)
     argmap = {'kind': kind, 'frm': frm, 'to': None if to_none else to, 'start': start, 'stop': None if stop_none else stop}
+    if kind == 5:         # permuted fields of one format (the harness's sixth kind): structure of kind 4, B scalar like A
+        a, b, x = make_cols(total, 2, 2, '<', '<', 0)
+        b = b + 1000      # no value of B is a value of A: a swapped column shows in every row
+        kind = 4
     # unit level: the real wrapper's chunk
     from dliswriter.utils.source_data_wrappers import DictDataWrapper, NumpyDataWrapper, HDF5DataWrapper
     src, mapping, cleanup = make_real_source(kind, a, b, x)
